@@ -165,13 +165,28 @@ def World.propose (w : World) (u : Upd CVal) : World × Res CVal :=
   let (s', r) := applyUpd w.store w.index u
   ({ w with store := s', index := w.index + 1 }, r)
 
+/-- what an id from the sequence (`incAndGetIDSeq`) is wanted for: a new table, or the recovery shard
+of a restore that has read the table record `tbl` at version `tver` (the zero record and version 0
+when there is none) -/
+inductive Purpose
+  | create
+  | restore (tbl : Table) (tver : Nat)
+  deriving Repr
+
 /-- a manager call in progress: which store call comes next, and what it remembers -/
 inductive Call
   -- createTable
   | createStart (name : String)
-  | createGetSeq (name : String)
-  | createSetSeq (name : String) (cur ver : Nat)
+  | createGetSeq (name : String) (k : Purpose)              -- incAndGetIDSeq, for createTable or for Restore
+  | createSetSeq (name : String) (cur ver : Nat) (k : Purpose)
   | createSetRec (name : String) (id : Nat)
+  -- Restore: getTableVersion, incAndGetIDSeq (the two steps above), setTableVersion{RecoverID := id},
+  -- [start the shard, wait for its leader, load the stream: no store call], getTableVersion,
+  -- setTableVersion{ClusterID := id, RecoverID := 0}
+  | restoreStart (name : String)
+  | restoreMark (name : String) (tbl : Table) (tver : Nat) (id : Nat)
+  | restoreReread (name : String) (id : Nat)
+  | restoreSwitch (name : String) (id : Nat) (tbl : Table) (ver : Nat)
   -- DeleteTable
   | deleteStart (name : String)
   | deleteDel (name : String) (ver : Nat)
@@ -188,6 +203,11 @@ inductive Call
   | doneErr (e : CErr)
   deriving Repr
 
+/-- what the id is used for next -/
+def afterSeq (name : String) (id : Nat) : Purpose → Call
+  | .create => .createSetRec name id
+  | .restore tbl tver => .restoreMark name tbl tver id
+
 def Call.isDone : Call → Bool
   | .doneTable _ | .doneOk | .doneBool _ | .doneErr _ => true
   | _ => false
@@ -197,20 +217,38 @@ def World.step (w : World) : Call → World × Call
   | .createStart name =>
     if !validTableName name then (w, .doneErr .invalidName)
     else if (w.store.get? (tableKey name)).isSome then (w, .doneErr .tableExists)   -- Exists
-    else (w, .createGetSeq name)
-  | .createGetSeq name =>   -- incAndGetIDSeq: Get
+    else (w, .createGetSeq name .create)
+  | .createGetSeq name k =>   -- incAndGetIDSeq: Get
     match w.store.get? sequenceKey with
-    | some ⟨_, .seq n, ver⟩ => (w, .createSetSeq name n ver)
+    | some ⟨_, .seq n, ver⟩ => (w, .createSetSeq name n ver k)
     | some _ => (w, .doneErr .versionMismatch)   -- unparsable sequence value (not reachable)
-    | none => (w, .createSetSeq name tableIDsRangeStart 0)
-  | .createSetSeq name cur ver =>   -- incAndGetIDSeq: Set with the version read
+    | none => (w, .createSetSeq name tableIDsRangeStart 0 k)
+  | .createSetSeq name cur ver k =>   -- incAndGetIDSeq: Set with the version read
     match w.propose ⟨.set, sequenceKey, .seq (cur + 1), ver⟩ with
-    | (w', .ok _) => ({ w' with issued := w'.issued ++ [cur + 1] }, .createSetRec name (cur + 1))
+    | (w', .ok _) => ({ w' with issued := w'.issued ++ [cur + 1] }, afterSeq name (cur + 1) k)
     | (w', .mismatch _) => (w', .doneErr .versionMismatch)
   | .createSetRec name id =>   -- setTableVersion(tab, 0)
     match w.propose ⟨.set, tableKey name, .table ⟨name, id, 0⟩, 0⟩ with
     | (w', .ok _) => (w', .doneTable ⟨name, id, 0⟩)
     | (w', .mismatch _) => (w', .doneErr .tableExists)
+  | .restoreStart name =>   -- validTableName, getTableVersion (a missing record is not an error)
+    if !validTableName name then (w, .doneErr .invalidName)
+    else match w.store.get? (tableKey name) with
+      | some ⟨_, .table t, ver⟩ => (w, .createGetSeq name (.restore t ver))
+      | some _ => (w, .doneErr .versionMismatch)   -- unparsable record (not reachable)
+      | none => (w, .createGetSeq name (.restore ⟨"", 0, 0⟩ 0))
+  | .restoreMark name tbl tver id =>   -- setTableVersion(tbl{Name, RecoverID := id}, version read at the start)
+    match w.propose ⟨.set, tableKey name, .table ⟨name, tbl.clusterID, id⟩, tver⟩ with
+    | (w', .ok _) => (w', .restoreReread name id)
+    | (w', .mismatch _) => (w', .doneErr .versionMismatch)
+  | .restoreReread name id =>   -- after the load: getTableVersion again
+    match w.store.get? (tableKey name) with
+    | some ⟨_, .table t, ver⟩ => (w, .restoreSwitch name id t ver)
+    | _ => (w, .doneErr .tableNotFound)
+  | .restoreSwitch name id tbl ver =>   -- setTableVersion(tbl{ClusterID := id, RecoverID := 0}, version just read)
+    match w.propose ⟨.set, tableKey name, .table ⟨tbl.name, id, 0⟩, ver⟩ with
+    | (w', .ok _) => (w', .doneOk)
+    | (w', .mismatch _) => (w', .doneErr .versionMismatch)
   | .deleteStart name =>
     if !validTableName name then (w, .doneErr .invalidName)
     else match w.store.get? (tableKey name) with
@@ -262,7 +300,7 @@ inductive Ev
   | tick (d : Nat)
 
 def Call.isInitial : Call → Bool
-  | .createStart _ | .deleteStart _ | .leaseStart .. | .returnStart .. => true
+  | .createStart _ | .deleteStart _ | .leaseStart .. | .returnStart .. | .restoreStart _ => true
   | _ => false
 
 def System.ev (s : System) : Ev → System
